@@ -17,6 +17,9 @@ func interleaveTenants(c *core.Ctx, runs []*tenantRun) string {
 	den := uint64([]int{4, 2, 8, 16, 64, 3}[c.T.Intn(6)])
 	sim := newSchedSim(c, den)
 	sim.noAccessTracking = true
+	if c.T.Chance(1, 4) {
+		sim.lockstep = 1 + c.T.Intn(3) // all instances move through the same code together (§3.6, lock-step policy)
+	}
 	for _, r := range runs {
 		r := r
 		sim.spawn(func(th *simThread) {
